@@ -25,6 +25,7 @@ const (
 	c14TwoShells         // session channel, two shell requests
 	c14BadRequest        // session channel, unknown request type
 	c14Kinds
+	c14Chatty = c14Kinds // (C14d only) 17 connection-wide keepalive requests, session channel, a shell request and 17 further shell requests
 )
 
 func c14Shells(kind int) int {
@@ -33,6 +34,8 @@ func c14Shells(kind int) int {
 		return 1
 	case c14TwoShells:
 		return 2
+	case c14Chatty:
+		return 18
 	}
 	return 0
 }
@@ -40,22 +43,40 @@ func c14Shells(kind int) int {
 // drive plays the client side of connection c up to its idle state.
 func c14Drive(c *c14Conn) {
 	switch c.kind {
-	case c14AuthFails, c14NoChannel:
+	case c14AuthFails:
+		return
+	case c14NoChannel:
+		if c.waitDone != nil {
+			c14StartMux(c, nil, 0, nil)
+		}
 		return
 	}
-	nc := &c14NewChan{conn: c, ctype: "session", reqs: make(chan *gossh.Request, 4), ch: &c14Channel{c}}
+	nc := &c14NewChan{conn: c, ctype: "session", reqs: make(chan *gossh.Request, c14ChanSize), ch: &c14Channel{c}}
 	if c.kind == c14OtherChan {
 		nc.ctype = "direct-tcpip"
 	}
-	c.chans <- nc
+	var reqs []*gossh.Request
+	globals := 0
 	switch c.kind {
 	case c14OneShell:
-		nc.reqs <- &gossh.Request{Type: "shell"}
+		reqs = append(reqs, &gossh.Request{Type: "shell"})
 	case c14TwoShells:
-		nc.reqs <- &gossh.Request{Type: "shell"}
-		nc.reqs <- &gossh.Request{Type: "shell"}
+		reqs = append(reqs, &gossh.Request{Type: "shell"}, &gossh.Request{Type: "shell"})
 	case c14BadRequest:
-		nc.reqs <- &gossh.Request{Type: "exec"}
+		reqs = append(reqs, &gossh.Request{Type: "exec"})
+	case c14Chatty:
+		globals = c14ChanSize + 1
+		for i := 0; i < c14ChanSize+2; i++ {
+			reqs = append(reqs, &gossh.Request{Type: "shell"})
+		}
+	}
+	if c.waitDone != nil {
+		c14StartMux(c, nc, globals, reqs)
+		return
+	}
+	c.chans <- nc
+	for _, r := range reqs {
+		nc.reqs <- r
 	}
 }
 
@@ -97,7 +118,6 @@ func VerifC14History(q, max int) {
 			return
 		}
 		c.Close()
-		close(c.chans)
 		settle()
 		if c14Authenticated[c.id] {
 			open--
@@ -122,7 +142,8 @@ func VerifC14History(q, max int) {
 		verifrt.Assert(false, "the reported number of open connections differs from the number actually open ("+when+")")
 	}
 	for i := 0; i < q; i++ {
-		c := &c14Conn{id: i, kind: verifrt.Choose("kind", c14Kinds), closed: make(chan struct{}), chans: make(chan gossh.NewChannel, 2)}
+		c := &c14Conn{id: i, kind: verifrt.Choose("kind", c14Kinds), closed: make(chan struct{}), chans: make(chan gossh.NewChannel, c14ChanSize),
+			global: make(chan *gossh.Request, c14ChanSize), waitDone: make(chan struct{})}
 		conns = append(conns, c)
 		reported := s.stats.currentConnections
 		l.incoming <- c
@@ -140,7 +161,6 @@ func VerifC14History(q, max int) {
 			c14Drive(c)
 			settle()
 			if c.isClosed { // the server ended it (unknown request)
-				close(c.chans)
 				open--
 				faulty -= c14Shells(c.kind)
 				if c14Shells(c.kind) == 0 {
